@@ -1,5 +1,6 @@
 import GB.Base.LTS
 import GB.C08.Model
+import GB.C08.Trailer
 /-
   C08 — the Send / trailer fence of gRPCWebStream (HTTP) and gRPCWebSocketStream (WebSocket) as an LTS.
 
@@ -13,7 +14,7 @@ import GB.C08.Model
                                                  write header frame] ; write data frame ; Unlock
                                 original order  if finished {return} ; Lock ; … writes … ; Unlock     (flag read OUTSIDE the mutex)
     * the handler epilogue:     Forward returned(code, msg) ; Lock ; finished = true ; Unlock ; write trailer frame
-                                (HTTP: incoming.finish() ; writeTrailerWithStatus — WebSocket: sendTrailer)
+                                (lpmTrailer = Trailer.lean's encoding of the values; HTTP: incoming.finish() ; writeTrailerWithStatus — WebSocket: sendTrailer)
   Every write (`rw.Write(frame)`, `socket.WriteMessage(frame)`) is one atomic append to the output; a write may fail
   (nothing appended).  HTTP is the same machine started with `sentMD = true` (response headers do not travel in the body).
 -/
@@ -122,7 +123,7 @@ def hWriteHdr (s : St) (i : Nat) : Option St :=
   | none => none
   | some h =>
     if h.pc = .passed ∧ s.sentMD = false then
-      some { s with sentMD := true, out := s.out ++ [lpmTrailer s.header], hdrW := some s.header }
+      some { s with sentMD := true, out := s.out ++ [lpmTrailer (encodeMD s.header)], hdrW := some (encodeMD s.header) }
     else none
 
 def hWrite (s : St) (i : Nat) : Option St :=
@@ -166,8 +167,8 @@ def step (s : St) : Lbl → Option St
   | .finUnlock => if s.phase = .flagged then some { s with phase := .fenced, mu := .free } else none
   | .writeTrailer =>
     if s.phase = .fenced then
-      some { s with phase := .done, out := s.out ++ [lpmTrailer (trailerWithStatus s.trailer s.code s.smsg)],
-                    trW := some (trailerWithStatus s.trailer s.code s.smsg) }
+      some { s with phase := .done, out := s.out ++ [lpmTrailer (encodeMD (trailerWithStatus s.trailer s.code s.smsg))],
+                    trW := some (encodeMD (trailerWithStatus s.trailer s.code s.smsg)) }
     else none
   | .trailerFails => if s.phase = .fenced then some { s with phase := .done } else none
 
